@@ -655,6 +655,8 @@ def run(chk):
     check_s9(chk, m, K, prog)
     chk.rule("S10", "kernel.atomic_runq's static initialiser: pool of this unit, pointer-sized slots, queue_len == num_free == pool bytes / msg_len, depth in [8, 32], empty")
     fib.check_atomic_queue_geometry(chk, m, K)
+    chk.rule("S11", "outside the list operations and the initialisers (fibre_init, fibre_eventq_init and static helpers only they call) no store / memset / memcpy in fibre.c covers the link member of a fibre descriptor")
+    fib.check_link_ownership(chk, m, K)
     # "the fibres whose timeouts that pass finds expired" are a dispatch reason: the expiry predicate and the timer order (C02)
     from . import C02
     chk.rule_prefix = "C02."
